@@ -40,6 +40,17 @@ const (
 	PtStart    = "trigger.start.begin"
 )
 
+// Windows owned by the harness itself: the recording writer parks inside the call, i.e. while
+// the resolver holds the subscription's write lock.
+const (
+	PtWFlush    = "writer.flush"    // event / updateSub: inside the target's Flush
+	PtWComplete = "writer.complete" // complete: inside the target's Complete
+	PtWError    = "writer.error"    // error: inside the target's Error
+)
+
+// IsWriterPoint reports whether the window is inside a writer call.
+func IsWriterPoint(p string) bool { return p == PtWFlush || p == PtWComplete || p == PtWError }
+
 // Filter kinds (field data.k of the event, k in 0..2).
 const (
 	FNone   = ""       // no filter
@@ -179,7 +190,7 @@ func (s Step) String() string {
 	}
 	if s.Split != nil {
 		fmt.Fprintf(&b, " SPLIT@%s", s.Split.Point)
-		if strings.HasPrefix(s.Split.Point, "sub.") {
+		if strings.HasPrefix(s.Split.Point, "sub.") || IsWriterPoint(s.Split.Point) {
 			fmt.Fprintf(&b, "[s%d]", s.Split.Target)
 		}
 		b.WriteString("{")
